@@ -11,9 +11,17 @@ kinds of cases
   operator  (method, sv, inversion) x complete inner product of interpolation / grid / flags
   plant     one card leaf replaced by the NumPy scalar of its kind
   xgridobj  OperatorCard / Metadata holding an XGrid object with the linear flag
-  synthetic one DictLike class per subset of {array,tuple,enum,nested,optional,dict,xgrid} fields
-            x array hint spelling x every leaf planted with a NumPy scalar (and all at once)
+  synthetic one DictLike class per subset of {array,tuple,enum,nested,optional,dict,xgrid,plaindc} fields
+            x array hint spelling x every leaf planted with a NumPy scalar (and all at once); further NumPy
+            kinds at the plain leaves; Optional[bool]/Optional[str] holding None; special / empty / bool / 0-d arrays
   managers  a real EKO is created from the cards; the interpolator of runner.parts._managers
+  compute   real solves with both integration kernels recorded (evolution kernel; with a threshold crossing
+            also the matching kernel of operator_matrix_element): mode, node, basis of every call
+  edited    operator cards whose interpolation mode is changed by attribute assignment AFTER construction
+            (the documented way of customising a card): configs only, grid object only, or both;
+            round trip + a real solve: mode used by the kernel == mode declared in configs == mode the
+            archive records for its grid
+  tupleform nested DictLike given as a sequence (positional form of from_dict)
 """
 
 import copy
@@ -33,11 +41,14 @@ TECHNIQUE = "complete products of card settings and of synthetic dict-like class
 LEVEL_TEXT = (
     "every enumerated card / dict-like object is serialised with its own `raw`, passed through PyYAML's safe "
     "dumper and loader, rebuilt with `from_dict` and compared field by field with an independent canonicaliser; "
-    "the interpolator the runner builds is compared with the card's declared degree, grid and log flag"
+    "the interpolator the runner builds is compared with the card's declared degree, grid and log flag, and in real solves "
+    "(with and without a threshold crossing) every call of the evolution and of the matching integration kernel is "
+    "compared with the declared mode, nodes and basis; cards edited after construction go through the same round trip and solve"
 )
 LEVEL_NOTE = (
     "decides the property on the enumerated settings and classes only; trusted: PyYAML safe_dump/safe_load, "
-    "the canonicaliser vf/ref/c36_canon.py; field types limited to those eko's cards and its own dictlike test use"
+    "the canonicaliser vf/ref/c36_canon.py; field types limited to those eko's cards and its own dictlike test use, plus a "
+    "nested plain dataclass and Optional[bool] / Optional[str]; for cards edited after construction a refusal (ValueError) counts as holding"
 )
 FLOOR_NONTRIVIAL = 50
 
@@ -50,7 +61,7 @@ TH_INNER = dict(
     ratios=[[1.0, 1.0, 1.0], [0.5, 1.0, 2.0], [1.0, "inf", "inf"]],
     n3lo_ad_variation=[[0, 0, 0, 0, 0, 0, 0], [1, 2, 3, 1, 2, 3, 1]],
     matching_order=[None, [0, 0], [2, 0]],
-    use_fhmruvv=[True, False],
+    use_fhmruvv=[True, False, None],
     em_running=[False, True],
     xif=[1.0, 0.5],
     ref=[[91.2, 5], [1.51, 3]],
@@ -90,8 +101,16 @@ def _product(dims):
 
 
 # ----------------------------------------------------------------------------- the round trip
-def roundtrip(res, obj, cls, sigroot, where):
-    """raw -> safe_dump -> safe_load -> from_dict -> compare. Returns the rebuilt object or None."""
+def roundtrip(res, obj, cls, sigroot, where, expect=None, logsig=None, numpy_site=None, view=None):
+    """raw -> safe_dump -> safe_load -> from_dict -> compare. Returns the rebuilt object or None.
+
+    expect: object the rebuilt one is compared with (default: obj itself); logsig: signature of a difference in an
+    XGrid log flag (default: the historical one); numpy_site: where a NumPy scalar was planted, if outside the
+    historical sites (tuple / dict / list / field), so that a dump failure there gets its own signature;
+    view: function applied to the canonical form of the rebuilt object before the comparison.
+    """
+    import re
+
     import yaml
 
     try:
@@ -104,7 +123,9 @@ def roundtrip(res, obj, cls, sigroot, where):
     except Exception as exc:  # noqa
         culprit = cn.plain_violation(raw) or "?"
         tname = culprit.rsplit("of type ", 1)[-1]
-        if tname.startswith("numpy."):
+        if tname.startswith("numpy.") and numpy_site:
+            sig = f"dictlike.raw_field/{numpy_site}/numpy-scalar-not-normalised"
+        elif tname.startswith("numpy."):
             sig = f"dictlike.raw_field/numpy-scalar-not-normalised/{tname}"
         else:
             sig = f"{sigroot}/safe_dump-rejects/{tname}"
@@ -120,17 +141,58 @@ def roundtrip(res, obj, cls, sigroot, where):
     except Exception as exc:  # noqa
         res.fail(f"{sigroot}/from_dict-raises/{type(exc).__name__}", f"{where}: {type(exc).__name__}: {str(exc)[:200]}")
         return None
-    d = cn.first_diff(cn.canon(obj), cn.canon(back))
+    got = cn.canon(back)
+    if view is not None:
+        got = view(got)
+    d = cn.first_diff(cn.canon(obj if expect is None else expect), got)
     if d:
         field = d.split(":")[0]
+        coerced = re.search(r": None vs (False|'None')$", d)
         if field.endswith("/log"):
-            res.fail("dictlike.raw_field/XGrid/log-flag-lost", f"{where}: before vs after the round trip {d}")
+            res.fail(logsig or "dictlike.raw_field/XGrid/log-flag-lost", f"{where}: before vs after the round trip {d}")
+        elif coerced:
+            # one defect, whatever the class: the variants of an Optional are tried with the value None
+            kind = "bool" if coerced.group(1) == "False" else "str"
+            res.fail(f"dictlike.load_typing/Optional-None-coerced/{kind}", f"{where}: before vs after the round trip {d}")
         else:
-            import re
-
             generic = re.sub(r"\[[0-9]+\]", "[]", field)
             res.fail(f"{sigroot}/differs{generic}", f"{where}: before vs after the round trip {d}")
     return back
+
+
+# int-typed leaves of the two cards: the canonical comparison identifies 1 and 1.0, the type row does not
+def _int_leaves(card):
+    from eko.io.runcards import TheoryCard
+
+    if isinstance(card, TheoryCard):
+        out = [(f"order[{i}]", v) for i, v in enumerate(card.order)]
+        out.append(("couplings.ref[1]", card.couplings.ref[1]))
+        out += [(f"n3lo_ad_variation[{i}]", v) for i, v in enumerate(card.n3lo_ad_variation)]
+        out += [(f"matching_order[{i}]", v) for i, v in enumerate(card.matching_order)]
+        return out
+    c = card.configs
+    out = [("init[1]", card.init[1])] + [(f"mugrid[{i}][1]", ep[1]) for i, ep in enumerate(card.mugrid)]
+    out += [(f"configs.ev_op_max_order[{i}]", v) for i, v in enumerate(c.ev_op_max_order)]
+    out += [
+        ("configs.ev_op_iterations", c.ev_op_iterations), ("configs.interpolation_polynomial_degree", c.interpolation_polynomial_degree),
+        ("configs.n_integration_cores", c.n_integration_cores),
+    ]
+    return out
+
+
+def check_int_types(res, back, sigroot, where):
+    """Every int-typed leaf of a reloaded card is a Python int (not a float of equal value, not a bool)."""
+    import re
+
+    if back is None:
+        return 0
+    n = 0
+    for path, v in _int_leaves(back):
+        n += 1
+        if type(v) is not int:
+            generic = re.sub(r"\[[0-9]+\]", "[]", path)
+            res.fail(f"{sigroot}/int-leaf-type/{generic}", f"{where}: reloaded {path} = {v!r} of type {type(v).__name__}")
+    return n
 
 
 # ----------------------------------------------------------------------------- interpolator oracle
@@ -237,7 +299,8 @@ def eval_theory(case):
         if inner["em_running"]:
             cfg["alphaem"] = 0.0078125
         th = direct_theory(cfg)
-        roundtrip(res, th, TheoryCard, "TheoryCard.roundtrip", f"cfg={cfg}")
+        back = roundtrip(res, th, TheoryCard, "TheoryCard.roundtrip", f"cfg={cfg}")
+        check_int_types(res, back, "TheoryCard.roundtrip", f"cfg={cfg}")
         n += 1
     res.info = {"max_inner_points": n}
     res.outcome = "theory:" + ("ok" if not res.fails else "fails")
@@ -271,6 +334,7 @@ def eval_operator(case):
         op = direct_operator(cfg)
         where = f"cfg={ {k: v for k, v in cfg.items() if k != 'xgrid'} } grid={inner['grid']}"
         back = roundtrip(res, op, OperatorCard, "OperatorCard.roundtrip", where)
+        check_int_types(res, back, "OperatorCard.roundtrip", where)
         n += 1
         key = (inner["degree"], inner["is_log"], inner["grid"])
         if key in itp_cache or back is None:
@@ -359,7 +423,8 @@ def eval_plant(case):
     except Exception as exc:  # noqa
         res.fail(f"{cls.__name__}.from_dict/numpy-input-raises", f"{where}: {type(exc).__name__}: {exc}")
         return res
-    roundtrip(res, obj, cls, f"{cls.__name__}.roundtrip", where)
+    back = roundtrip(res, obj, cls, f"{cls.__name__}.roundtrip", where)
+    check_int_types(res, back, f"{cls.__name__}.roundtrip", where)
     res.outcome = f"plant:{case['npkind']}:" + ("ok" if not res.fails else "fails")
     return res
 
@@ -382,6 +447,16 @@ def eval_xgridobj(case):
     roundtrip(res, obj, cls, f"{cls.__name__}.roundtrip", f"{cls.__name__} holding XGrid({case['grid']}, log={case['log']})")
     res.outcome = f"xgridobj:{case['log']}:" + ("ok" if not res.fails else "fails")
     return res
+
+
+def _one_nan(c):
+    """All NaNs of the float array `a` identified (YAML carries neither sign nor payload of a NaN); other bits kept."""
+    a = c.get("a")
+    if isinstance(a, dict) and a.get("__array__") == "f":
+        arr = np.frombuffer(bytes.fromhex(a["bytes"]), dtype=float).copy()
+        arr[np.isnan(arr)] = np.nan
+        c = dict(c, a=dict(a, bytes=arr.tobytes().hex()))
+    return c
 
 
 def eval_synthetic(case):
@@ -413,6 +488,50 @@ def eval_synthetic(case):
         obj.on = 0
         roundtrip(res, obj, cls, sroot, f"DictLike with fields {feats}, optional fields holding zeros")
         n += 2
+        # Optional[bool] / Optional[str]: None and the falsy value of the type are different field values
+        for name, val in (("ob", None), ("ob", False), ("os", None), ("os", ""), ("os", "None")):
+            obj = syn.instance(cls, feats, None)
+            setattr(obj, name, val)
+            roundtrip(res, obj, cls, sroot, f"DictLike with fields {feats}, optional field {name} = {val!r}")
+            n += 1
+    # ---- NumPy scalar kinds beyond float64 / int64 / bool_ at the always-present leaves: reloaded == the plain object
+    plain = syn.instance(cls, feats, None)
+    for name, kind, ctor in syn.EXTRA_KINDS:
+        obj = syn.instance(cls, feats, None)
+        setattr(obj, name, ctor(getattr(plain, name)))
+        roundtrip(res, obj, cls, sroot, f"DictLike with fields {feats or ['plain']} (array hint {hint}), NumPy {kind} planted at {name}", expect=plain)
+        n += 1
+    # ---- leaves of the nested plain dataclass
+    for name, kind in syn.plain_leaves(feats):
+        obj = syn.instance(cls, feats, name)
+        roundtrip(
+            res, obj, cls, sroot, f"DictLike with fields {feats} (array hint {hint}), NumPy {kind} planted at {name} inside the nested plain dataclass",
+            expect=plain, numpy_site="plain-dataclass",
+        )
+        n += 1
+    if "array" in feats:
+        # array values beyond the finite 1-d / 2-d ones: special values, empty, bool, int64 column
+        for tag, arr in (
+            ("special", np.array([math.nan, math.inf, -math.inf, -0.0, 5e-324])), ("empty", np.array([])),
+            ("bool", np.array([True, False, True])), ("3d", np.arange(8.0).reshape(2, 2, 2)), ("strided", np.arange(10.0)[::3]),
+        ):
+            obj = syn.instance(cls, feats, None)
+            obj.a = arr
+            roundtrip(res, obj, cls, sroot, f"DictLike with fields {feats} (array hint {hint}), array field holding the {tag} array {arr.tolist()}", view=_one_nan)
+            n += 1
+        # a 0-d array: dictlike documents "do not apply array on scalars" - the value must survive (as a 0-d array or
+        # as the Python scalar of the same value), the container kind is not demanded
+        obj = syn.instance(cls, feats, None)
+        obj.a = np.array(3.5)
+        want0 = cn.canon(obj)["a"]
+
+        def view(c):
+            if type(c.get("a")) is float and c["a"] == 3.5:
+                c = dict(c, a=want0)
+            return c
+
+        roundtrip(res, obj, cls, sroot, f"DictLike with fields {feats} (array hint {hint}), array field holding a 0-d array", view=view)
+        n += 1
     res.info = {"max_inner_points": n}
     res.outcome = f"synthetic:{len(feats)}:" + ("ok" if not res.fails else "fails")
     return res
@@ -471,59 +590,111 @@ def _mellin_ref(bf_x, areas_x, N, x, is_log):
     return tot
 
 
-def eval_compute(case):
-    """The declared interpolation settings reach the integration kernel of a real solve: every kernel call carries the
-    declared mode, a declared node and the declared basis; and the N-space factor that the kernel multiplies in is the
-    Mellin transform of the declared x-space basis function (reference: adaptive quadrature of that function)."""
+def _spied_solve(th, op, path):
+    """eko.solve with both integration kernels recorded and a two-point quadrature stub.
+
+    Returns (calls_evolution, calls_matching); a call is (is_log, log x, flattened basis configuration).
+    """
     import sys
     import types
 
+    import eko
     import eko.evolution_operator  # noqa
-    from eko import interpolation
+    import eko.evolution_operator.operator_matrix_element  # noqa
 
-    res = Result()
-    grid, degree, is_log = _grid(case["grid"]), case["degree"], case["is_log"]
-    cfg = dict(xgrid=grid, degree=degree, is_log=is_log, mugrid=[[10.0, 4]], order=[1, 0], skip_singlet=True)
-    where = f"LO non-singlet solve, grid={case['grid']} degree={degree} is_log={is_log}"
     evop = sys.modules["eko.evolution_operator"]
-    calls = []
-    real_qk = evop.quad_ker
+    omem = sys.modules["eko.evolution_operator.operator_matrix_element"]
+    calls, ocalls = [], []
+    real_qk, real_oqk = evop.quad_ker, omem.quad_ker
+
+    def rec(kw):
+        return (bool(kw["is_log"]), float(kw["logx"]), tuple(np.asarray(kw["areas"], dtype=float).ravel().tolist()))
 
     def spy(u, **kw):
-        calls.append((bool(kw["is_log"]), float(kw["logx"]), tuple(np.asarray(kw["areas"], dtype=float).ravel().tolist())))
+        calls.append(rec(kw))
         return real_qk(u, **kw)
+
+    def ospy(u, **kw):
+        ocalls.append(rec(kw))
+        return real_oqk(u, **kw)
 
     def quad(f, a, b, **kw):
         v = f(0.5) + f(0.8)
         return (v, 0.0, {}) if kw.get("full_output") else (v, 0.0)
 
-    saved = evop.integrate, evop.quad_ker
-    evop.integrate, evop.quad_ker = types.SimpleNamespace(quad=quad), spy
+    saved = evop.integrate, evop.quad_ker, omem.quad_ker
+    evop.integrate, evop.quad_ker, omem.quad_ker = types.SimpleNamespace(quad=quad), spy, ospy
     try:
-        ops = cards.solve_ops(cfg, tag="c40c")
-    except Exception as exc:  # noqa
-        res.fail("solve/raises", f"{where}: {type(exc).__name__}: {exc}")
-        return res
+        eko.solve(th, op, path)
     finally:
-        evop.integrate, evop.quad_ker = saved
-    if not calls:
-        res.fail("solve/no-kernel-call", f"{where}: the solve never called the integration kernel")
-        return res
+        evop.integrate, evop.quad_ker, omem.quad_ker = saved
+    return calls, ocalls
+
+
+def _check_calls(res, calls, grid, degree, is_log, sig, where):
+    """mode, node and basis of every recorded kernel call against the declared (grid, degree, mode)."""
+    from eko import interpolation
+
     ref_n = interpolation.InterpolatorDispatcher(interpolation.XGrid(list(grid), log=is_log), degree, mode_N=True)
     ref_areas = {tuple(np.asarray(bf.areas_representation, dtype=float).ravel().tolist()) for bf in ref_n}
     nodes = {float(np.log(x)) for x in grid}
     modes = {c[0] for c in calls}
     if modes != {bool(is_log)}:
-        res.fail("solve/kernel/is_log-ignored", f"{where}: kernel called with is_log={sorted(modes)}")
+        res.fail(f"{sig}/is_log-ignored", f"{where}: kernel called with is_log={sorted(modes)}")
     if not {c[1] for c in calls} <= nodes:
-        res.fail("solve/kernel/foreign-node", f"{where}: kernel called at log x not on the declared grid: {sorted({c[1] for c in calls} - nodes)[:3]}")
+        res.fail(f"{sig}/foreign-node", f"{where}: kernel called at log x not on the declared grid: {sorted({c[1] for c in calls} - nodes)[:3]}")
     if not {c[2] for c in calls} <= ref_areas:
-        res.fail("solve/kernel/foreign-basis", f"{where}: kernel called with a basis configuration that the declared (grid, degree, mode) does not generate")
+        res.fail(f"{sig}/foreign-basis", f"{where}: kernel called with a basis configuration that the declared (grid, degree, mode) does not generate")
+    return ref_n
+
+
+def eval_compute(case):
+    """The declared interpolation settings reach the integration kernels of a real solve: every kernel call (evolution
+    kernel and, when a threshold is crossed, matching kernel) carries the declared mode, a declared node and the declared
+    basis; and the N-space factor that the kernel multiplies in is the Mellin transform of the declared x-space basis
+    function (reference: adaptive quadrature of that function)."""
+    import os
+
+    from eko import interpolation
+
+    res = Result()
+    grid, degree, is_log = _grid(case["grid"]), case["degree"], case["is_log"]
+    matching = case.get("matching")
+    if matching:
+        # one threshold crossing (mb = 4.5 < 10): matching of order matching[0]-1, non-singlet (+ singlet when asked)
+        cfg = dict(xgrid=grid, degree=degree, is_log=is_log, mugrid=[[10.0, 5]], order=matching["order"], skip_singlet=not matching["singlet"])
+        where = f"order {matching['order']} solve across the bottom threshold (singlet={matching['singlet']}), grid={case['grid']} degree={degree} is_log={is_log}"
+    else:
+        cfg = dict(xgrid=grid, degree=degree, is_log=is_log, mugrid=[[10.0, 4]], order=[1, 0], skip_singlet=True)
+        where = f"LO non-singlet solve, grid={case['grid']} degree={degree} is_log={is_log}"
+    th, op = cards.build(cfg)
+    path = cards.scratch_path("c40c")
+    try:
+        calls, ocalls = _spied_solve(th, op, path)
+    except Exception as exc:  # noqa
+        res.fail("solve/raises", f"{where}: {type(exc).__name__}: {exc}")
+        return res
+    finally:
+        try:
+            os.unlink(path)
+        except OSError:
+            pass
+    if not calls:
+        res.fail("solve/no-kernel-call", f"{where}: the solve never called the integration kernel")
+        return res
+    ref_n = _check_calls(res, calls, grid, degree, is_log, "solve/kernel", where)
+    if matching:
+        if not ocalls:
+            res.fail("solve/no-matching-kernel-call", f"{where}: the solve never called the matching kernel")
+            return res
+        _check_calls(res, ocalls, grid, degree, is_log, "solve/matching-kernel", where)
+    elif ocalls:
+        res.fail("solve/unexpected-matching-kernel-call", f"{where}: matching kernel called without a threshold crossing")
     # ---- linear mode: N-space factor of the kernel == Mellin transform of the declared x-space basis
     # (log mode drops boundary terms that vanish under the inversion; its formula is the subject of C35)
     itx = interpolation.InterpolatorDispatcher(interpolation.XGrid(list(grid), log=is_log), degree, mode_N=False)
     worst = 0.0
-    for j in sorted({0, len(grid) // 2, len(grid) - 1}) if not is_log else []:
+    for j in sorted({0, len(grid) // 2, len(grid) - 1}) if not (is_log or matching) else []:
         bfn, bfx = ref_n[j], itx[j]
         for k in sorted({0, max(0, j - 1), j}):
             x = grid[k]
@@ -539,14 +710,135 @@ def eval_compute(case):
                         f"kernel-basis/log={is_log}/not-the-mellin-transform",
                         f"{where}: basis j={j} at x_k={x}, N={N}: kernel factor {got}, quadrature of the x-space basis {want}",
                     )
-    res.info = {"kernel_calls": len(calls), "worst_rel": worst}
-    res.outcome = f"compute:{is_log}:{degree}:" + ("ok" if not res.fails else "fails")
+    res.info = {"kernel_calls": len(calls), "matching_kernel_calls": len(ocalls), "max_worst_rel": worst}
+    res.outcome = f"compute:{'matching' if matching else 'evolution'}:{is_log}:{degree}:" + ("ok" if not res.fails else "fails")
+    return res
+
+
+def eval_edited(case):
+    """An operator card whose interpolation mode is changed by attribute assignment after construction.
+
+    The cards are plain (non-frozen) dataclasses and attribute assignment is how eko's tutorials and benchmarks customise
+    them (`op_card.xgrid = XGrid(...)`, `operator.configs.interpolation_polynomial_degree = 1`). The mode is held twice
+    (configs.interpolation_is_log and the flag of the grid object): how = "configs" / "xgrid" edits one of them,
+    "both" edits both. Demanded: the round trip gives an equal card (or the card is refused with a ValueError), and a
+    real solve either refuses the card or uses ONE mode throughout: kernel calls == configs.interpolation_is_log of the
+    stored card == flag of the grid the archive records (the grid every consumer of the operators interpolates with).
+    """
+    import os
+
+    from eko.interpolation import XGrid
+    from eko.io.runcards import OperatorCard
+    from eko.io.struct import EKO
+
+    res = Result()
+    how, degree, start, to = case["how"], case["degree"], case["start"], case["to"]
+    grid = _grid(case["grid"])
+    th, op = cards.build(dict(xgrid=grid, degree=degree, is_log=start, mugrid=[[10.0, 4]], order=[1, 0], skip_singlet=True))
+    if how in ("configs", "both"):
+        op.configs.interpolation_is_log = to
+    if how in ("xgrid", "both"):
+        op.xgrid = XGrid(grid, log=to)
+    cfg_flag, grid_flag = bool(op.configs.interpolation_is_log), bool(op.xgrid.log)
+    where = f"card built with is_log={start}, then {how} set to {to} (configs declare log={cfg_flag}, grid object log={grid_flag}), degree {degree}"
+    S = f"OperatorCard.edited/how={how}"
+    refused = 0
+    # ---- round trip
+    try:
+        op.raw
+        raw_ok = True
+    except ValueError:
+        raw_ok, refused = False, refused + 1
+    except Exception:  # noqa  (reported by roundtrip below)
+        raw_ok = True
+    if raw_ok:
+        roundtrip(res, op, OperatorCard, S + "/roundtrip", where, logsig=S + "/roundtrip/xgrid-log-differs")
+    # ---- real solve
+    th2, op2 = cards.build(dict(xgrid=grid, degree=degree, is_log=start, mugrid=[[10.0, 4]], order=[1, 0], skip_singlet=True))
+    if how in ("configs", "both"):
+        op2.configs.interpolation_is_log = to
+    if how in ("xgrid", "both"):
+        op2.xgrid = XGrid(grid, log=to)
+    path = cards.scratch_path("c40e")
+    try:
+        try:
+            calls, _ = _spied_solve(th2, op2, path)
+        except ValueError:
+            refused += 1
+            calls = None
+        except Exception as exc:  # noqa
+            res.fail(S + "/solve/raises", f"{where}: {type(exc).__name__}: {exc}")
+            calls = None
+        if calls is not None:
+            if not calls:
+                res.fail(S + "/solve/no-kernel-call", f"{where}: the solve never called the integration kernel")
+            used = {c[0] for c in calls}
+            with EKO.read(path) as e:
+                rec_grid = bool(e.xgrid.log)
+                rec_cfg = bool(e.operator_card.configs.interpolation_is_log)
+                rec_card_grid = bool(e.operator_card.xgrid.log)
+                rec_degree = e.operator_card.configs.interpolation_polynomial_degree
+                same_grid = np.asarray(e.xgrid.raw).tobytes() == np.asarray(grid, dtype=float).tobytes()
+            if len(used) > 1:
+                res.fail(S + "/solve/mixed-modes", f"{where}: kernel called with is_log={sorted(used)}")
+            if rec_cfg != cfg_flag:
+                res.fail(S + "/solve/stored-configs-differ", f"{where}: the stored card declares interpolation_is_log={rec_cfg}")
+            if used and used != {rec_cfg}:
+                res.fail(S + "/solve/kernel-mode-differs-from-configs", f"{where}: kernel called with is_log={sorted(used)}, configs declare {rec_cfg}")
+            if used and used != {rec_grid}:
+                res.fail(
+                    S + "/solve/archive-grid-flag-differs-from-kernel-mode",
+                    f"{where}: kernel called with is_log={sorted(used)} but the archive records its grid with log={rec_grid} "
+                    f"(stored operator card: grid log={rec_card_grid}, configs {rec_cfg})",
+                )
+            if rec_degree != degree or not same_grid:
+                res.fail(S + "/solve/grid-or-degree", f"{where}: stored degree {rec_degree}, grid unchanged: {same_grid}")
+            if used and how == "both" and used != {bool(to)}:
+                res.fail(S + "/solve/edit-ignored", f"{where}: both declarations were set to {to}, kernel called with is_log={sorted(used)}")
+    finally:
+        try:
+            os.unlink(path)
+        except OSError:
+            pass
+    res.info = {"refusals": refused}
+    res.outcome = f"edited:{how}:" + ("refused" if refused == 2 else "ok" if not res.fails else "fails")
+    return res
+
+
+def eval_tupleform(case):
+    """from_dict of a nested DictLike given positionally (a sequence instead of a mapping) equals the mapping form."""
+    from eko.io.runcards import OperatorCard, TheoryCard
+
+    res = Result()
+    if case["card"] == "theory":
+        cls, raw = TheoryCard, _raw_theory()
+        c = raw["couplings"]
+        seq = dict(raw, couplings=[c["alphas"], c["alphaem"], c["ref"], c["em_running"]])
+        if case["form"] == "tuple":
+            seq["couplings"] = tuple(seq["couplings"])
+    else:
+        cls, raw = OperatorCard, _raw_operator()
+        d = raw["debug"]
+        seq = dict(raw, debug=[d["skip_singlet"], d["skip_non_singlet"]])
+        if case["form"] == "tuple":
+            seq["debug"] = tuple(seq["debug"])
+    where = f"{cls.__name__} with its nested {'couplings' if case['card'] == 'theory' else 'debug'} given as a {case['form']}"
+    try:
+        a, b = cls.from_dict(raw), cls.from_dict(seq)
+    except Exception as exc:  # noqa
+        res.fail(f"{cls.__name__}.from_dict/positional-form-raises", f"{where}: {type(exc).__name__}: {exc}")
+        return res
+    d = cn.first_diff(cn.canon(a), cn.canon(b))
+    if d:
+        res.fail(f"{cls.__name__}.from_dict/positional-form-differs", f"{where}: mapping form vs positional form {d}")
+    roundtrip(res, b, cls, f"{cls.__name__}.roundtrip", where)
+    res.outcome = "tupleform:" + ("ok" if not res.fails else "fails")
     return res
 
 
 EVAL = dict(
     theory=eval_theory, operator=eval_operator, plant=eval_plant, xgridobj=eval_xgridobj,
-    synthetic=eval_synthetic, managers=eval_managers, compute=eval_compute,
+    synthetic=eval_synthetic, managers=eval_managers, compute=eval_compute, edited=eval_edited, tupleform=eval_tupleform,
 )
 
 
@@ -588,6 +880,20 @@ def run(ctx):
         cases.append(dict(kind="managers", grid=g, degree=degree, is_log=is_log))
     for g, degree, is_log in itertools.product(["five"] if not ctx.thorough() else ["five", "smallx", "make_grid"], [1, 2], [True, False]):
         cases.append(dict(kind="compute", grid=g, degree=degree, is_log=is_log))
+    # solves that cross a threshold: the matching kernel has its own call site for the interpolation mode
+    matchings = [dict(order=[2, 0], singlet=False)]
+    if ctx.thorough():
+        matchings += [dict(order=[2, 0], singlet=True), dict(order=[3, 0], singlet=True)]
+    n_match = 0
+    for mt, g, degree, is_log in itertools.product(matchings, ["five"] if not ctx.thorough() else ["five", "smallx", "make_grid"], [1, 2], [True, False]):
+        cases.append(dict(kind="compute", grid=g, degree=degree, is_log=is_log, matching=mt))
+        n_match += 1
+    n_edit = 0
+    for how, start, degree in itertools.product(["configs", "xgrid", "both"], [True, False], [1, 2]):
+        cases.append(dict(kind="edited", how=how, start=start, to=not start, degree=degree, grid="five"))
+        n_edit += 1
+    for card, form in itertools.product(["theory", "operator"], ["list", "tuple"]):
+        cases.append(dict(kind="tupleform", card=card, form=form))
     results = ctx.run_cases(cases, evaluate)
     inner = sum((r[1][3] or {}).get("max_inner_points", 1) for r in results)
     n_th = len(list(_product(TH_INNER)))
@@ -600,12 +906,24 @@ def run(ctx):
         +
         "(degree, log flag, 4 grids incl. generated ones, polarised/time-like, 3 mu grids, max order); "
         f"{sum(len(v) + 1 for v in PLANTS.values())} NumPy plants into real cards; 16 XGrid-object holders; "
-        f"{nsyn} synthetic DictLike classes (all subsets of 7 field features x 2 array-hint spellings) with every leaf planted; "
-        f"8 real EKOs for runner.parts._managers; real LO solves (kernel calls recorded: mode, node, basis; kernel basis factor vs quadrature of the x-space basis) for (grid, degree, mode); {inner} objects round-tripped in total; non-trivial = all"
+        f"{nsyn} synthetic DictLike classes (all subsets of {len(syn.FEATURES)} field features incl. a nested plain dataclass x 2 array-hint spellings) "
+        "with every leaf planted (float64/int64/bool_ everywhere; float32, float16, int32, uint8, int8, str_ at the plain leaves), Optional[bool]/Optional[str] "
+        "holding None / falsy values, array fields holding special-value, empty, bool, 3-d, strided and 0-d arrays; "
+        f"8 real EKOs for runner.parts._managers; real LO solves (kernel calls recorded: mode, node, basis; kernel basis factor vs quadrature of the x-space basis) for (grid, degree, mode); "
+        f"{n_match} real solves across the bottom threshold with the matching kernel recorded as well (NLO non-singlet"
+        + ("; NLO and NNLO singlet" if ctx.thorough() else "")
+        + f"); {n_edit} cards edited after construction (configs / grid object / both x start mode x degree) through round trip and a real solve; "
+        f"4 positional-form inputs; every reloaded card's int-typed leaves are Python ints; {inner} objects round-tripped in total; non-trivial = all"
     )
     ctx.assumptions += [
         "equality is field-by-field value equality with all NaNs identified and XGrid compared by grid bits and log flag "
         "(eko's own XGrid.__eq__ ignores the flag, dataclass == is not NaN-aware)",
-        "NumPy scalar kinds explored: float64, int64, bool_",
+        "NumPy scalar kinds explored: float64, int64, bool_ at every leaf; float32, float16, int32, uint8, int8, str_ at the plain scalar leaves",
+        "a 0-d array in an array-typed field may come back as the Python scalar of the same value (dictlike.py documents "
+        "'do not apply array on scalars'; the dataclass == of eko also calls the two equal): value demanded, container kind not",
+        "a card carrying contradictory declarations of the interpolation mode (edited after construction) may be refused with a ValueError "
+        "instead of being round-tripped / solved; if it is accepted, one mode must be used throughout",
+        "Unions with two non-None members (e.g. Union[int, float], where the first member that accepts the value wins) are not "
+        "explored: no eko card uses one and the quantifier does not list them",
         "nothing is claimed for field types outside those enumerated",
     ]
